@@ -88,6 +88,16 @@ def r1(prog, ev, rep):
     return conv
 
 
+def _pred_chars(body, c):
+    """characters for which a closure body `c == 'x' || c == 'y'` is true; None if it has another form"""
+    if body.k == "bin" and body.a[0] == "Eq" and body.a[1] == c and body.a[2].k == "lit":
+        return [body.a[2].a[1]]
+    if body.k == "logic" and body.a[0] == "Or":
+        a, b = _pred_chars(body.a[1], c), _pred_chars(body.a[2], c)
+        return (a + b) if a is not None and b is not None else None
+    return None
+
+
 def r2_to_r5(prog, ev, rep, conv):
     rep.rule("C09-R2", "step table: Selector::Name -> name step, Selector::Index -> index step, wildcard/slice/filter/descendant/"
              "union -> Err", floor=7)
@@ -173,7 +183,21 @@ def r2_to_r5(prog, ev, rep, conv):
         prob.append("quotes are removed with %s (strips every leading/trailing quote, not one layer)" % trims)
     if not decodes:
         prob.append("no escape decoding (\\', \\\\, \\uXXXX) between the Normalized Path step and the lookup")
-    rep.check(not prob, "C09-R4", "%s|name-decoding" % shared.rk(prog, ev, conv), c.loc(), "decoded name", "; ".join(prob))
+    stripped = []
+    for y in chain:
+        if re.search(r"<impl str>::trim(_start|_end)?_matches$", y.a[0]) and len(y.a) == 3:
+            f = y.a[2]
+            cs = None
+            if f.k == "lit":
+                cs = [f.a[1]]
+            elif f.k in ("closure", "fnitem"):
+                body = ev.apply(f, [Tm("param", (34, "c"))])
+                cs = _pred_chars(body, Tm("param", (34, "c")))
+            stripped.append("".join(sorted(cs)) if cs is not None else "?")
+        elif re.search(r"<impl str>::trim", y.a[0]):
+            stripped.append("ws")
+    suffix = ("{%s}" % ",".join(stripped)) if stripped else ""
+    rep.check(not prob, "C09-R4", "%s|name-decoding%s" % (shared.rk(prog, ev, conv), suffix), c.loc(), "decoded name", "; ".join(prob))
     # R5: kind-blind lookup
     lookup_blind = True   # serde_json::Value::pointer resolves a token against whatever container is there (RFC 6901)
     same_render = tpl == tpl_i
